@@ -1,0 +1,115 @@
+//go:build verif
+
+package signing
+
+import (
+	"github.com/keep-network/keep-core/pkg/net"
+	"github.com/keep-network/keep-core/pkg/protocol/group"
+	"github.com/keep-network/keep-core/pkg/protocol/state"
+)
+
+// Verification hook (build tag verif, property C12): builds the message
+// receiving states around a bare member and re-exports their Receive methods
+// and message history. No protocol logic is added.
+
+type VerifC12Receiver struct {
+	Receive func(msg net.Message) error
+	Stored  func() int
+}
+
+func VerifC12StateKinds() []string {
+	return []string{
+		"epk", "symkey", "tss1", "tss2", "tss3", "tss4", "tss5", "tss6",
+		"tss7", "tss8", "tss9",
+	}
+}
+
+func VerifC12MessageKinds() []string {
+	return []string{"epk", "tss1", "tss5", "tss9"}
+}
+
+func VerifC12NewReceiver(
+	kind string,
+	self group.MemberIndex,
+	grp *group.Group,
+	membershipValidator *group.MembershipValidator,
+	sessionID string,
+) *VerifC12Receiver {
+	base := state.NewBaseAsyncState()
+	stored := func() int {
+		n := 0
+		for _, t := range []string{
+			(&ephemeralPublicKeyMessage{}).Type(),
+			(&tssRoundOneMessage{}).Type(),
+			(&tssRoundFiveMessage{}).Type(),
+			(&tssRoundNineMessage{}).Type(),
+		} {
+			n += len(base.GetAllReceivedMessages(t))
+		}
+		return n
+	}
+	m := &member{
+		id:                  self,
+		group:               grp,
+		membershipValidator: membershipValidator,
+		sessionID:           sessionID,
+	}
+	ekm := &ephemeralKeyPairGeneratingMember{member: m}
+	skm := &symmetricKeyGeneratingMember{ephemeralKeyPairGeneratingMember: ekm}
+	t1 := &tssRoundOneMember{symmetricKeyGeneratingMember: skm}
+	t2 := &tssRoundTwoMember{tssRoundOneMember: t1}
+	t3 := &tssRoundThreeMember{tssRoundTwoMember: t2}
+	t4 := &tssRoundFourMember{tssRoundThreeMember: t3}
+	t5 := &tssRoundFiveMember{tssRoundFourMember: t4}
+	t6 := &tssRoundSixMember{tssRoundFiveMember: t5}
+	t7 := &tssRoundSevenMember{tssRoundSixMember: t6}
+	t8 := &tssRoundEightMember{tssRoundSevenMember: t7}
+	t9 := &tssRoundNineMember{tssRoundEightMember: t8}
+
+	var receive func(msg net.Message) error
+	switch kind {
+	case "epk":
+		receive = (&ephemeralKeyPairGenerationState{BaseAsyncState: base, member: ekm}).Receive
+	case "symkey":
+		receive = (&symmetricKeyGenerationState{BaseAsyncState: base, member: skm}).Receive
+	case "tss1":
+		receive = (&tssRoundOneState{BaseAsyncState: base, member: t1}).Receive
+	case "tss2":
+		receive = (&tssRoundTwoState{BaseAsyncState: base, member: t2}).Receive
+	case "tss3":
+		receive = (&tssRoundThreeState{BaseAsyncState: base, member: t3}).Receive
+	case "tss4":
+		receive = (&tssRoundFourState{BaseAsyncState: base, member: t4}).Receive
+	case "tss5":
+		receive = (&tssRoundFiveState{BaseAsyncState: base, member: t5}).Receive
+	case "tss6":
+		receive = (&tssRoundSixState{BaseAsyncState: base, member: t6}).Receive
+	case "tss7":
+		receive = (&tssRoundSevenState{BaseAsyncState: base, member: t7}).Receive
+	case "tss8":
+		receive = (&tssRoundEightState{BaseAsyncState: base, member: t8}).Receive
+	case "tss9":
+		receive = (&tssRoundNineState{BaseAsyncState: base, member: t9}).Receive
+	default:
+		return nil
+	}
+	return &VerifC12Receiver{receive, stored}
+}
+
+func VerifC12NewMessage(
+	kind string,
+	senderID group.MemberIndex,
+	sessionID string,
+) net.TaggedMarshaler {
+	switch kind {
+	case "epk":
+		return &ephemeralPublicKeyMessage{senderID: senderID, sessionID: sessionID}
+	case "tss1":
+		return &tssRoundOneMessage{senderID: senderID, sessionID: sessionID}
+	case "tss5":
+		return &tssRoundFiveMessage{senderID: senderID, sessionID: sessionID}
+	case "tss9":
+		return &tssRoundNineMessage{senderID: senderID, sessionID: sessionID}
+	}
+	return nil
+}
